@@ -474,6 +474,13 @@ def run_c09(prop, tier, seed, replay, t0):
     sound = subprocess.run([vlib.JUDGE, "permsound", "0", str(N)], stdout=subprocess.PIPE, text=True).stdout \
         if translation_error is None else ""
     unsound = [l for l in sound.splitlines() if l.startswith("UNSOUND")]
+    # the record is about ANOTHER stream / topic than the request (incl. "stream whose id is the topic's id"):
+    # a rule that answers ok there looks a table up under the wrong key
+    if translation_error is None:
+        def cross(kk):
+            return subprocess.run([vlib.JUDGE, "permsound", "0", str(N), str(kk[0]), str(kk[1])], stdout=subprocess.PIPE, text=True).stdout
+        for outp in vlib.parallel(cross, [(5, 5), (4, 5), (3, 6), (5, 3)], workers=4):
+            unsound += [l for l in outp.splitlines() if l.startswith("UNSOUND")]
 
     def describe(idx, v):
         g, sr = divmod(idx, 1153)
@@ -502,7 +509,7 @@ def run_c09(prop, tier, seed, replay, t0):
     if unsound:
         idx = int(re.search(r"idx=(\d+)", unsound[0]).group(1))
         real = tables[0][1][idx + 1] if tables[0][1] else ""
-        path = vlib.write_replay(prop, "unsound.txt", unsound[0] + "\n" + describe(idx, "same") +
+        path = vlib.write_replay(prop, "unsound.txt", unsound[0] + "\n(the request is always for user 7, stream 3, topic 5; if the line names `record-about-stream`, the record below is about that stream/topic instead)\n" + describe(idx, "same") +
                                  f"\nreal Permissioner outcomes at this record ({','.join(rules)}): {real}\n")
         msgs.append(f"VIOLATION property={prop} replay={path}")
         rc = 1
